@@ -277,8 +277,8 @@ package flags
 //@   loop 1 invariant forall(k, 0, idx_1, callarg(Option.Set, old(ncalls(Option.Set)) + k, 0) == option && callarg(Option.Set, old(ncalls(Option.Set)) + k, 1) != nil && *callarg(Option.Set, old(ncalls(Option.Set)) + k, 1) == option.OptionalValue[k])
 //@   loop 1 invariant idx_1 > 0 ==> err == nil
 //@   loop 1 invariant is(err, *Error) ==> as(err, *Error) != nil
-//@   ensures[C01,C04] !ca && argument != nil ==> isTyped(err, ErrNoArgumentForBool) && ncalls(Option.Set) == n0 && same(s.args, old(s.args))
-//@   ensures[C01] !ca && argument == nil ==> ncalls(Option.Set) == n0 + 1 && callarg(Option.Set, n0, 0) == option && callarg(Option.Set, n0, 1) == nil && same(s.args, old(s.args))
+//@   ensures[C01,C04] !ca && argument != nil ==> isTyped(err, ErrNoArgumentForBool) && ncalls(Option.Set) == n0 && same(s.args, old(s.args)) && s.arg == old(s.arg)
+//@   ensures[C01] !ca && argument == nil ==> ncalls(Option.Set) == n0 + 1 && callarg(Option.Set, n0, 0) == option && callarg(Option.Set, n0, 1) == nil && same(s.args, old(s.args)) && s.arg == old(s.arg)
 //@   ensures[C01,C02] ca && argument != nil ==> same(s.args, old(s.args)) && s.arg == old(s.arg)
 //@   ensures[C01,C02] ca && argument != nil && !unquoteFails(option, *argument) ==> oneSet(n0, option, setValue(option, *argument))
 //@   ensures[C01,C02,C04] ca && argument != nil && unquoteFails(option, *argument) ==> ncalls(Option.Set) == n0 && isTyped(err, ErrMarshal)
@@ -290,5 +290,54 @@ package flags
 //@   ensures[C01,C02] ca && argument == nil && !takes && option.OptionalArgument ==> ncalls(Option.Set) <= n0 + len(option.OptionalValue) && (err == nil ==> ncalls(Option.Set) == n0 + len(option.OptionalValue))
 //@   ensures[C01,C02] ca && argument == nil && !takes && option.OptionalArgument ==> forall(k, 0, ncalls(Option.Set) - n0, callarg(Option.Set, n0 + k, 0) == option && callarg(Option.Set, n0 + k, 1) != nil && *callarg(Option.Set, n0 + k, 1) == option.OptionalValue[k])
 //@   ensures[C02,C04] ca && argument == nil && !takes && !option.OptionalArgument ==> isTyped(err, ErrExpectedArgument) && ncalls(Option.Set) == n0
+//@   ensures[C04] err != nil ==> is(err, *Error) && as(err, *Error) != nil
+//@   assigns s.arg, s.args, Option.isSet, Option.preventDefault, Option.clearReferenceBeforeSet
+
+// Ghost rune sequence of a string (maintained by the engine at every range
+// over a string): runeAt(s,k), runeOffset(s,k), nrunes(s).  Trusted facts:
+//@ axiom manual runes_first: forall s string :: len(s) > 0 ==> runeAt(s, 0) == rune(utf8r(s)) && runeOffset(s, 0) == 0 && nrunes(s) >= 1
+//@ axiom manual runes_single: forall s string :: (nrunes(s) == 1) == (len(s) > 0 && utf8w(s) == len(s))
+//@ axiom manual runes_empty: forall s string :: (nrunes(s) == 0) == (len(s) == 0)
+// string(r) is the UTF-8 encoding of r (U+FFFD for an invalid r):
+//@ axiom manual runestr_decode: forall s string :: len(s) > 0 && utf8r(s) != 65533 ==> hasPrefix(s, string(rune(utf8r(s)))) && len(string(rune(utf8r(s)))) == utf8w(s)
+//@ axiom manual runestr_len: forall r rune :: len(string(r)) == ite(runeLen(int(r)) < 0, 3, runeLen(int(r)))
+
+//@ func (p *Parser) parseLong(s *parseState, name string, argument *string) (err error)
+//@   props C01 C02 C04 C07
+//@   requires p != nil && s != nil
+//@   ensures[C07,C04] s.lookup.longNames[name] == nil ==> isTyped(err, ErrUnknownFlag) && ncalls(Option.Set) == old(ncalls(Option.Set)) && same(s.args, old(s.args)) && s.arg == old(s.arg)
+//@   like Parser.parseOption(p, s, name, s.lookup.longNames[name], !s.lookup.longNames[name].OptionalArgument, argument) when s.lookup.longNames[name] != nil
+//@   assigns s.arg, s.args, Option.isSet, Option.preventDefault, Option.clearReferenceBeforeSet
+
+//@ func (p *Parser) splitShortConcatArg(s *parseState, optname string) (name string, arg *string)
+//@   props C01 C02 C04
+//@   requires s != nil
+//@   let c, n := utf8.DecodeRuneInString(optname)
+//@   let o := s.lookup.shortNames[string(c)]
+//@   ensures[C02] n < len(optname) && o != nil && o.canArgument() ==> name == string(c) && arg != nil && *arg == optname[n:]
+//@   ensures[C02] !(n < len(optname) && o != nil && o.canArgument()) ==> name == optname && arg == nil
+//@   assigns nothing
+
+// parseShort: optname is a cluster of short options.  k0/o0 describe the first
+// rune; shortOpt(s, t, k) is the option named by the k-th rune of t.
+//@ pure func shortOpt(s *parseState, t string, k int) *Option = s.lookup.shortNames[string(runeAt(t, k))]
+//@ pure func isFlag(o *Option) bool = o != nil && !o.canArgument()
+
+//@ func (p *Parser) parseShort(s *parseState, optname string, argument *string) (err error)
+//@   props C01 C02 C04 C07
+//@   requires p != nil && s != nil
+//@   let on := ite(argument == nil, fst(p.splitShortConcatArg(s, optname)), optname)
+//@   let a := ite(argument == nil, snd(p.splitShortConcatArg(s, optname)), argument)
+//@   let n0 := ncalls(Option.Set)
+//@   requires use(runes_first, on) && use(runes_single, on) && use(runes_empty, on)
+//@   loop 1 peel
+//@   loop 1 invariant optname == on && argument == nil && cnt_1 >= 1
+//@   loop 1 invariant forall(j, 0, cnt_1, shortOpt(s, optname, j) != nil)
+//@   loop 1 invariant a == nil && forall(j, 0, cnt_1, isFlag(shortOpt(s, optname, j))) ==> ncalls(Option.Set) == old(ncalls(Option.Set)) + cnt_1 && same(s.args, old(s.args)) && s.arg == old(s.arg)
+//@   loop 1 invariant a == nil && forall(j, 0, cnt_1, isFlag(shortOpt(s, optname, j))) ==> forall(j, 0, cnt_1, callarg(Option.Set, old(ncalls(Option.Set)) + j, 0) == shortOpt(s, optname, j) && callarg(Option.Set, old(ncalls(Option.Set)) + j, 1) == nil)
+//@   ensures[C07,C04] len(on) > 0 && shortOpt(s, on, 0) == nil ==> isTyped(err, ErrUnknownFlag) && ncalls(Option.Set) == n0 && same(s.args, old(s.args)) && s.arg == old(s.arg)
+//@   like[C01,C02] Parser.parseOption(p, s, string(runeAt(on, 0)), shortOpt(s, on, 0), !shortOpt(s, on, 0).OptionalArgument, a) when nrunes(on) == 1 && shortOpt(s, on, 0) != nil
+//@   ensures[C02] a == nil && err == nil && forall(j, 0, nrunes(on), isFlag(shortOpt(s, on, j))) ==> ncalls(Option.Set) == n0 + nrunes(on) && same(s.args, old(s.args)) && s.arg == old(s.arg)
+//@   ensures[C02] a == nil && err == nil && forall(j, 0, nrunes(on), isFlag(shortOpt(s, on, j))) ==> forall(j, 0, nrunes(on), callarg(Option.Set, n0 + j, 0) == shortOpt(s, on, j) && callarg(Option.Set, n0 + j, 1) == nil)
 //@   ensures[C04] err != nil ==> is(err, *Error) && as(err, *Error) != nil
 //@   assigns s.arg, s.args, Option.isSet, Option.preventDefault, Option.clearReferenceBeforeSet
